@@ -53,6 +53,58 @@ def run(chk):
                    "descriptor kind of %s differs between targets: HLSL %s, MSL %s" % (k, a, b), "hlsl/msl analyse_bindings", sample={"object": k, "hlsl": a, "msl": b})
         chk.floor("C18.floor/descriptor-table", len(tabs["hlsl"]), 20, "descriptor table entries")
 
+class _Captured(Exception):
+    def __init__(self, value):
+        self.value = value
+
+
+def rule_defines_eval(chk, comp):
+    """compile() walked by the finite-map reader up to its call of the preprocessor, once per Target value (and with
+    buffer addresses on / off): the predefined macros handed to the preprocessor are the same list for every target,
+    except for the values of the RSSL_TARGET_* macros - a source that does not test those macros is preprocessed
+    identically for every target."""
+    import interp as I
+    f = chk.facts
+    variants = f.variants("Target", "rssl") or []
+    if not variants:
+        return
+    seen = {}
+    for tgt in variants:
+        for sba in (False, True):
+            def grab(a):
+                raise _Captured(a[3] if len(a) > 3 else None)
+            ip = I.Interp(f, max_depth=6, extern={"preprocess::preprocess": grab, "SourceManager::new": lambda a: I.Opaque("source manager")})
+            args = I.Enum("CompileArgs", None, {"target": I.Enum("Target", tgt), "support_buffer_address": sba, "defines": [("USER", "1")], "entry_file_name": "main.rssl",
+                                                "include_handler": I.Opaque("includes"), "validate_layout_consistency": False, "pipeline_mode": I.Opaque("mode")})
+            try:
+                r = ip.apply(comp, [args])
+                continue            # returned before preprocessing (invalid argument combination)
+            except _Captured as c:
+                d = c.value
+                d = d.get() if isinstance(d, I.Ref) else d
+            except I.Unknown as e:
+                chk.unreadable("C18.front/defines-eval/readable", "the head of compile()", e, where(comp))
+                return
+            if not isinstance(d, list) or not all(isinstance(x, tuple) and len(x) == 2 for x in d):
+                chk.unreadable("C18.front/defines-eval/readable", "the defines handed to preprocess", repr(d)[:60], where(comp))
+                return
+            seen[(tgt, sba)] = d
+    if not seen:
+        chk.unreadable("C18.front/defines-eval/readable", "the head of compile()", "preprocess is never reached", where(comp))
+        return
+    generic = {k: [(n_, v_) for n_, v_ in d if not str(n_).startswith("RSSL_TARGET_")] for k, d in seen.items()}
+    names = {k: [n_ for n_, v_ in d] for k, d in seen.items()}
+    ref_k = sorted(seen, key=str)[0]
+    bad = None
+    for k in sorted(seen, key=str):
+        if generic[k] != generic[ref_k]:
+            bad = bad or "for %s the preprocessor is given %s, for %s it is given %s (beyond the RSSL_TARGET_* values): target-independent sources are preprocessed differently" % (
+                k[0], generic[k], ref_k[0], generic[ref_k])
+        elif names[k] != names[ref_k]:
+            bad = bad or "the set of predefined macro names differs between %s and %s: %s vs %s" % (k[0], ref_k[0], names[k], names[ref_k])
+    chk.ob("C18.front/defines-eval", bad is None, "%d target configurations: the predefined macros differ only in the values of RSSL_TARGET_*" % len(seen) if bad is None else bad, where(comp),
+           sample={"configurations": len(seen)})
+
 
 def rule_front(chk, comp):
     cfg = M.Cfg(comp)
@@ -88,6 +140,7 @@ def rule_front(chk, comp):
     # value-level: the define values chosen by target are exactly "1"/"0" and the names RSSL_TARGET_HLSL / RSSL_TARGET_MSL
     lits = [l.get("v") for l in F.exprs(comp["thir"], "Lit") if l.get("t") == "str"]
     ok = "RSSL_TARGET_HLSL" in lits and "RSSL_TARGET_MSL" in lits
+    rule_defines_eval(chk, comp)
     chk.ob("C18.front/defines", ok, "RSSL_TARGET_HLSL / RSSL_TARGET_MSL defines present" if ok else "the RSSL_TARGET_* defines are gone", where(comp))
     # control dependence: every front-end call is executed whatever the target is. For one target value, at each test
     # of the target only the edge that value takes is feasible; the call must stay reachable for every value.
